@@ -77,9 +77,9 @@ def k_setbytes(l1):
     ex.summaries[EM + "SqrtRatio"] = sqrt_ratio
     path = l1.path()
     bs = [z3.BitVec("x[%d]" % i, 8) for i in range(32)]
-    boid = ex.new_obj(path, ("array", 32, prog.T("uint8")), name="x", init=list(bs))
+    boid = ex.new_obj(path, ("array", 72, prog.T("uint8")), name="x", init=list(bs) + [0xEE] * 40)
     v = l1.junk_obj(path, "Point", "R")
-    paths = ex.call(fname, [v, X.SliceV(boid, (), 0, 32, 32)], path)
+    paths = ex.call(fname, [v, X.SliceV(boid, (), 0, 32, 72)], path)
     bad = [p for p in paths if p.outcome[0] != "ret"]
     chk.add(Ob("Point.SetBytes: never panics on 32 bytes (%d paths)" % len(paths), "unsat" if not bad else "sat", 0, [fname], "ring mode"))
     acc = [p for p in paths if p.outcome[0] == "ret" and p.outcome[1][1] is None]
